@@ -63,6 +63,30 @@ func (g *TxGen) sign(signer signature.Signer, addr staking.Address, method trans
 		Method: method, Nonce: nonce, Gas: gas, ExpectAuthOK: true}
 }
 
+// migrationVerdict judges a node registration that names `to` (not the node's current owner) as owning entity, from
+// the committed state: "" when it may legitimately succeed, otherwise the authority rule it breaks. Ambiguities
+// inside the block (an epoch transition that removes the expired node first, a listing transaction earlier in the
+// same block) are resolved towards "".
+func (g *TxGen) migrationVerdict(nk *NodeKeys, to *EntityKeys) string {
+	listedNow := false
+	if ent, err := g.V.Reg.Entity(g.V.ctx, to.Signer.Public()); err == nil && ent != nil {
+		for _, id := range ent.Nodes {
+			if id.Equal(nk.ID.Public()) {
+				listedNow = true
+			}
+		}
+	}
+	cur, err := g.V.Reg.Node(g.V.ctx, nk.ID.Public())
+	switch {
+	case err == nil && cur != nil && uint64(cur.Expiration)+g.W.Spec.DebondingIv >= uint64(g.V.Epoch)+1:
+		// (it stays in the registry even if this block starts the next epoch)
+		return "node that is still in the registry (active or expired) names another owning entity"
+	case !listedNow && !g.foreignListed[nk.ID.Public()]:
+		return "node claims an entity that does not list it"
+	}
+	return ""
+}
+
 // GenRegistry draws one registry transaction for the C17 profile.
 func (g *TxGen) GenRegistry(t *rapid.T) *RegTx {
 	w := g.W
@@ -104,23 +128,7 @@ func (g *TxGen) GenRegistry(t *rapid.T) *RegTx {
 		} else {
 			to = others[rapid.IntRange(0, len(others)-1).Draw(t, "migToOther")]
 		}
-		unauthorized := ""
-		listedNow := false
-		if ent, err := g.V.Reg.Entity(g.V.ctx, to.Signer.Public()); err == nil && ent != nil {
-			for _, id := range ent.Nodes {
-				if id.Equal(pick.N.ID.Public()) {
-					listedNow = true
-				}
-			}
-		}
-		cur, err := g.V.Reg.Node(g.V.ctx, pick.N.ID.Public())
-		switch {
-		case err == nil && cur != nil && uint64(cur.Expiration)+w.Spec.DebondingIv >= uint64(g.V.Epoch)+1:
-			// (it stays in the registry even if this block starts the next epoch)
-			unauthorized = "node that is still in the registry (active or expired) names another owning entity"
-		case !listedNow && !g.foreignListed[pick.N.ID.Public()]:
-			unauthorized = "node claims an entity that does not list it"
-		}
+		unauthorized := g.migrationVerdict(pick.N, to)
 		exp := g.V.Epoch + beacon.EpochTime(rapid.IntRange(1, int(w.Spec.MaxNodeExp)).Draw(t, "exp"))
 		nd := w.NodeDescriptor(pick.E, pick.N, exp, 0, false)
 		nd.EntityID = to.Signer.Public()
@@ -153,6 +161,7 @@ func (g *TxGen) GenRegistry(t *rapid.T) *RegTx {
 		p2p, cons, vrf, tls := nk.P2P, nk.Consensus, nk.VRF, nk.TLS
 		note := ""
 		unauthorized := ""
+		var migratedTo *EntityKeys
 		if !isAnchor {
 			switch rapid.IntRange(0, 7).Draw(t, "rot") {
 			case 0:
@@ -217,7 +226,10 @@ func (g *TxGen) GenRegistry(t *rapid.T) *RegTx {
 				o := w.Entities[rapid.IntRange(0, len(w.Entities)-1).Draw(t, "otherEntity")]
 				if o != ek {
 					nd.EntityID = o.Signer.Public()
-					unauthorized = "node claims an entity that does not list it"
+					unauthorized = g.migrationVerdict(nk, o)
+					if unauthorized == "" {
+						migratedTo = o
+					}
 				}
 			}
 		}
@@ -230,7 +242,18 @@ func (g *TxGen) GenRegistry(t *rapid.T) *RegTx {
 		d.Mutated = unauthorized
 		rt := &RegTx{TxDesc: d, Unauthorized: unauthorized}
 		if unauthorized == "" {
-			rt.OnSuccess = func() { nk.P2P, nk.Consensus, nk.VRF, nk.TLS = p2p, cons, vrf, tls }
+			rt.OnSuccess = func() {
+				nk.P2P, nk.Consensus, nk.VRF, nk.TLS = p2p, cons, vrf, tls
+				if migratedTo != nil {
+					for i, x := range ek.Nodes {
+						if x == nk {
+							ek.Nodes = append(append([]*NodeKeys{}, ek.Nodes[:i]...), ek.Nodes[i+1:]...)
+							break
+						}
+					}
+					migratedTo.Nodes = append(migratedTo.Nodes, nk)
+				}
+			}
 		}
 		return rt
 	case "entity":
@@ -270,6 +293,13 @@ func (g *TxGen) GenRegistry(t *rapid.T) *RegTx {
 				}
 				g.foreignListed[o.N.ID.Public()] = true
 			}
+		}
+		// every node ID this transaction lists may be (re-)listed by the time a later transaction of the same block runs
+		if g.foreignListed == nil {
+			g.foreignListed = map[signature.PublicKey]bool{}
+		}
+		for _, id := range ent.Nodes {
+			g.foreignListed[id] = true
 		}
 		descSigner, txSigner, txAddr, txName := ek.Signer, ek.Signer, ek.Address(), ek.Name
 		unauthorized := ""
@@ -314,12 +344,14 @@ func (g *TxGen) GenRegistry(t *rapid.T) *RegTx {
 		unauthorized := ""
 		if len(ek.Candidates) > 0 && rapid.IntRange(0, 3).Draw(t, "listed") > 0 {
 			nk = ek.Candidates[rapid.IntRange(0, len(ek.Candidates)-1).Draw(t, "cand")]
-			if ek.Listed != nil && !ek.Listed[nk.ID.Public()] {
+			if ek.Listed != nil && !ek.Listed[nk.ID.Public()] && !g.foreignListed[nk.ID.Public()] {
 				unauthorized = "node no longer listed by its entity"
 			}
 		} else {
 			nk = NewNodeKeys(fmt.Sprintf("%sY%d", ek.Name, rapid.IntRange(0, 2).Draw(t, "strayIdx")))
-			unauthorized = "node not listed by its entity"
+			if !g.foreignListed[nk.ID.Public()] {
+				unauthorized = "node not listed by its entity"
+			}
 		}
 		for _, x := range ek.Nodes {
 			if x.Name == nk.Name {
